@@ -1177,6 +1177,7 @@ private:
 
   inline std::remove_cv_t<T_AppType> get_raw_value() const
   {
+    RLBOX_VERIF_READ(&data);
     std::remove_cv_t<T_AppType> ret;
     // Need to construct an example_unsandboxed_ptr for pointers or arrays of
     // pointers. Since tainted_volatile is the type of data in sandbox memory,
@@ -1195,6 +1196,7 @@ private:
   inline std::remove_cv_t<T_SandboxedType> get_raw_sandbox_value()
     const noexcept
   {
+    RLBOX_VERIF_READ(&data);
     return data;
   };
 
@@ -1202,6 +1204,7 @@ private:
     rlbox_sandbox<T_Sbx>& sandbox) const noexcept
   {
     RLBOX_UNUSED(sandbox);
+    RLBOX_VERIF_READ(&data);
     return data;
   };
 
